@@ -358,3 +358,40 @@ fn edit_here(v: &JsVal, s: &mut Src) -> JsVal {
         _ => arbitrary_leaf(s),
     }
 }
+
+/// Add one undeclared-looking key at a random object position (C11).
+pub fn inject_extra_key(v: &JsVal, s: &mut Src) -> JsVal {
+    fn count(v: &JsVal) -> usize {
+        match v {
+            JsVal::Obj(kv, _) => 1 + kv.iter().map(|(_, x)| count(x)).sum::<usize>(),
+            JsVal::Arr(xs) | JsVal::Set(xs) => xs.iter().map(count).sum(),
+            JsVal::Map(kv) => kv.iter().map(|(_, x)| count(x)).sum(),
+            _ => 0,
+        }
+    }
+    fn go(v: &JsVal, target: &mut isize, key: &str, val: &JsVal) -> JsVal {
+        match v {
+            JsVal::Obj(kv, p) => {
+                let here = *target == 0;
+                *target -= 1;
+                let mut kv2: Vec<(String, JsVal)> = kv.iter().map(|(k, x)| (k.clone(), go(x, target, key, val))).collect();
+                if here && !kv2.iter().any(|(k, _)| k == key) {
+                    kv2.push((key.to_string(), val.clone()));
+                }
+                JsVal::Obj(kv2, p.clone())
+            }
+            JsVal::Arr(xs) => JsVal::Arr(xs.iter().map(|x| go(x, target, key, val)).collect()),
+            JsVal::Set(xs) => JsVal::Set(xs.iter().map(|x| go(x, target, key, val)).collect()),
+            JsVal::Map(kv) => JsVal::Map(kv.iter().map(|(k, x)| (k.clone(), go(x, target, key, val))).collect()),
+            other => other.clone(),
+        }
+    }
+    let n = count(v);
+    if n == 0 {
+        return v.clone();
+    }
+    let mut target = s.below(n) as isize;
+    let key = s.pick(&["z", "extra", "a", "b", "c", "k", "constructor", "__proto__", "toString", "0"]).to_string();
+    let val = arbitrary_leaf(s);
+    go(v, &mut target, &key, &val)
+}
